@@ -338,6 +338,18 @@ func c08(c *Ctx) {
 	c.After("recover/after-primary", ml, p.PlainCalls(mp), rec, Any(p.PlainCalls(al), p.Calls("litefs.Leaser.ClusterID"), IsReturn), 1, "after the primary role ends, Store.Recover runs before the next election round", "role-change recovery: pending journal/WAL state of the old role must not survive into the new one")
 	c.After("recover/after-replica", ml, p.PlainCalls(mr), rec, Any(p.PlainCalls(al), p.Calls("litefs.Leaser.ClusterID"), IsReturn), 1, "after a replica session ends, Store.Recover runs before the next election round", "")
 
+	// ---- the replication stream is primary-scoped ----
+	hs := "http.(*Server).handlePostStream"
+	{
+		var dones []string
+		for _, in := range Instrs(c.F(hs), p.Calls("context.Context.Done")) {
+			dones = append(dones, c.argR(in, 0))
+		}
+		c.ExpectAll("stream/wait-on-primary-ctx", dones, pat("p0.ctx")+"|"+pat("@@litefs.(*Store).PrimaryCtx(p0.store, @@)@@"), 2, "the stream's wait loop watches only the server context and the primary-scoped request context", "a stream that is already open must end when the node loses its lease: watching the plain request context keeps the ex-primary streaming")
+		c.ExpectAll("stream/streamDB-primary-ctx", c.CallArgs(hs, p.PlainCalls("http.(*Server).streamDB"), 1), pat("@@litefs.(*Store).PrimaryCtx(p0.store, @@)@@"), 1, "databases are streamed under the primary-scoped context", "")
+		c.Guarded("stream/refused-when-not-primary", hs, p.PlainCalls("litefs.(*Store).SubscribeChangeSet"), gs(G(`\(nil == context\.Context\.Err\(.*PrimaryCtx.*\)\)|\(context\.Context\.Err\(.*PrimaryCtx.*\) == nil\)`, true)), 1, "a stream is accepted only while the primary-scoped context is live", "serves the replication stream only between acquiring a lease and losing it")
+	}
+
 	// ---- consul mapping ----
 	ca := "consul.(*Leaser).Acquire"
 	kvAcq := p.CallsRe(`.*api\.\(\*KV\)\.Acquire`)
@@ -357,6 +369,7 @@ func c08(c *Ctx) {
 	}
 	cc := "consul.(*Lease).Close"
 	c.Before("consul/close-release-then-destroy", cc, p.CallsRe(`.*api\.\(\*Session\)\.Destroy`), p.CallsRe(`.*api\.\(\*KV\)\.(Release|Delete|DeleteCAS)`), 1, "Lease.Close releases the key, then destroys the session", "")
+	c.Before("consul/close-always-destroys", cc, IsReturn, p.CallsRe(`.*api\.\(\*Session\)\.Destroy`), 1, "every exit of Lease.Close has attempted to destroy the session (a failed key release does not skip it)", "destroys the lease: a surviving session keeps the lock and the stale primary info until the TTL runs out")
 	{
 		n := len(Instrs(c.F(cc), p.CallsRe(`.*api\.\(\*Session\)\.Destroy`)))
 		if n == 0 {
